@@ -285,7 +285,18 @@ class Gen:
         if not self.params or rng.random() < 0.4:
             return []
         n = rng.randint(1, 3)
-        return [self.gen_param(rng.choice(["R", "P"]), loopvars) for _ in range(n)]
+        out = []
+        for _ in range(n):
+            if rng.random() < 0.25:
+                # services take values of any type: paths that continue after an array index, attributes of attributes
+                if rng.random() < 0.7:
+                    idx = "[" + rng.choice(loopvars) + "]" if loopvars and rng.random() < 0.75 else "[%d]" % rng.randint(0, 2)
+                    out.append(["r", "parts", idx, rng.choice(["n", "b"])])
+                else:
+                    out.append(rng.choice([["r", "n"], ["r", "m", "b"], ["r", "m", "n"]]))
+            else:
+                out.append(self.gen_param(rng.choice(["R", "P"]), loopvars))
+        return out
 
     def fresh_loopvar(self, enclosing):
         """counting variable: names are reused between loops of one task, never inside a loop over the same name"""
